@@ -216,6 +216,7 @@ fn probe_collision() -> Result<(), Failure> {
         config_inner: None,
     };
     let prog = Program {
+        name_style: 0,
         defs: vec![unit("Foo", Prim::U8), unit("Foo", Prim::U16), unit("Foo1", Prim::Bool)],
         roots: vec![Ty::Def(0, vec![]), Ty::Def(1, vec![]), Ty::Def(2, vec![])],
     };
